@@ -95,6 +95,130 @@ def rule_spine_panics(ctx):
     ctx.note("beyond-spine", "index sites of the tree walk are decided by C09.tree-index; its ply-counter and depth arithmetic and lock poisoning need value reasoning and are not decided")
 
 
+GO_KEYWORDS = {"wtime": "white_time", "btime": "black_time", "winc": "white_increment", "binc": "black_increment",
+               "depth": "depth", "nodes": "nodes", "movetime": "movetime"}
+LIMITS = "search::limits::SearchLimits::"
+
+
+def _expand(b, sym, e, depth=0, seen=None):
+    seen = seen if seen is not None else set()
+    out = [e]
+    if depth > 5:
+        return out
+    for x in _value_leaves(e):
+        if isinstance(x, tuple) and x[0] == "var" and x[1] not in seen:
+            seen.add(x[1])
+            for l in range(len(b.locals)):
+                if b.local_name(l) == x[1]:
+                    for (db, di, rv) in b.defs().get(l, []):
+                        if rv.get("k") == "partial":
+                            continue
+                        v = sym.rvalue(rv) if rv.get("k") != "call" else ("call", strip_generics(mir.callee_name(rv["t"])), tuple(sym.operand(a) for a in rv["t"]["args"]))
+                        out.extend(_expand(b, sym, v, depth + 1, seen))
+    return out
+
+
+def _value_leaves(e):
+    """Variables the value is made of; the cursor used as the index of get / index only says which token is read."""
+    out = []
+
+    def rec(x):
+        if not isinstance(x, tuple) or not x:
+            return
+        if x[0] == "call" and isinstance(x[1], str) and (x[1].endswith("]>::get") or x[1].endswith("::index")) and len(x[2]) == 2:
+            rec(x[2][0])
+            return
+        if x[0] == "var":
+            out.append(x)
+        for y in x[1:]:
+            if isinstance(y, tuple):
+                if y and isinstance(y[0], str):
+                    rec(y)
+                else:
+                    for z in y:
+                        rec(z)
+    rec(e)
+    return out
+
+
+def _value_arith(e):
+    """Arithmetic applied to a value, not counting the computation of *which* token is read (the index argument of
+    get / index) and comparisons."""
+    out = []
+
+    def rec(x):
+        if not isinstance(x, tuple) or not x:
+            return
+        if x[0] == "call" and isinstance(x[1], str) and (x[1].endswith("]>::get") or x[1].endswith("::index")) and len(x[2]) == 2:
+            rec(x[2][0])
+            return
+        if x[0] in ("un", "cast") or (x[0] == "bin" and x[1] not in ("Lt", "Le", "Ge", "Gt", "Eq", "Ne")):
+            out.append(x)
+        for y in x[1:]:
+            if isinstance(y, tuple):
+                if y and isinstance(y[0], str):
+                    rec(y)
+                else:
+                    for z in y:
+                        rec(z)
+    rec(e)
+    return out
+
+
+def rule_go_keywords(ctx):
+    """The limits the search obeys are the ones the GUI sent: each `go` keyword feeds the parsed number that follows it,
+    unchanged, to the setter of its own limit; each setter stores its argument in its own field; Search::new takes the limits
+    as they are.  (A swapped keyword or a clamped value makes the engine budget from the wrong clock or stop at the wrong depth.)"""
+    ix = ctx.ix
+    b = ctx.body("uci::uci_command::UCICommand::parse_go")
+    sym = ctx.sym(b)
+    table = {}
+    allowed = ("::branch", "::map_err", "::parse", "::ok_or", "::ok_or_else", "]>::get", "::deref", "::index", "::copied", "::from_residual", "::as_str", "::trim")
+    errs = ("fmt::format", "Arguments::new", "Argument::new_display", "hint::must_use", "::to_string", "String::from", "::from", "::into", "Arguments::from_str", "from_str_nonconst", "::to_owned")
+    for bi, t in b.calls():
+        c = strip_generics(t.get("callee") or "")
+        if not c.startswith(LIMITS) or c.endswith("::new") or len(t["args"]) != 2:
+            continue
+        cons = C.constraints_for(ix, b, sym, bi)
+        kws = []
+        for x in cons:
+            e = x[3]
+            if e[0] == "call" and e[1].endswith("for str>::eq") and set(x[1]) == {True}:
+                lit = [a for a in e[2] if a[0] == "const" and isinstance(a[1], str)]
+                if lit:
+                    kws.append(lit[0][1])
+        v = sym.operand(t["args"][1])
+        # everything the value is made of, through variables (an extracted `value_at(args, idx)?` helper leaves its result
+        # in a variable assigned on its Ok and Err exits)
+        parts = _expand(b, sym, v)
+        calls = [y[1] for e in parts for y in walk(e) if isinstance(y, tuple) and y[0] == "call" and isinstance(y[1], str)]
+        arith = [y for e in parts for y in _value_arith(e)]
+        exact = (v[0] == "agg" and v[2] == "Some" and any(cn.endswith("::parse") for cn in calls) and all(cn.endswith(allowed + errs) for cn in calls) and not arith
+                 and any("args" in expr_str(e) for e in parts))
+        table[kws[-1] if kws else None] = (c.split("::")[-1], exact)
+    for kw, setter in sorted(GO_KEYWORDS.items()):
+        got = table.get(kw)
+        ctx.check(got == (setter, True), "go-keyword:%s" % kw, "`%s <n>` sets %s to Some(n), n being the parsed token itself" % (kw, setter), b.where(0),
+                  bad_what="`go %s` feeds %s (%s)" % (kw, got[0] if got else None, "value as parsed" if got and got[1] else "value transformed on the way, or not the parsed token"))
+    extra = sorted(str(k) for k in table if k not in GO_KEYWORDS)
+    ctx.check(not extra, "go-keywords:no-other-setter-call", "no other keyword sets a limit", b.where(0), bad_what="limits are also set under %s" % extra)
+    for kw, setter in sorted(GO_KEYWORDS.items()):
+        sb = ctx.body(LIMITS + setter)
+        ssym = ctx.sym(sb)
+        asg = [(bi, st) for bi, i, st in sb.stmts() if st["lhs"]["l"] == 1 and st["lhs"]["p"]]
+        ok = len(asg) == 1 and fields_of(asg[0][1]["lhs"]) == (setter,) and mir.strip_copies(ssym.rvalue(asg[0][1]["rv"])) == ("arg", sb.local_name(2)) and not list(sb.calls())
+        ctx.check(ok, "limits-setter:%s" % setter, "SearchLimits::%s stores its argument in self.%s and does nothing else" % (setter, setter), sb.where(0),
+                  bad_what="SearchLimits::%s is not the plain store of its argument" % setter)
+    nb = ctx.body("search::Search::new")
+    r = ctx.sym(nb).local(0)
+    lim = None
+    if r[0] == "agg" and len(r) > 4 and "limits" in r[4]:
+        lim = mir.strip_copies(r[3][list(r[4]).index("limits")])
+    ok = lim is not None and lim[0] == "call" and lim[1].endswith("Option::unwrap_or_default") and mir.strip_copies(lim[2][0]) == ("arg", "limits")
+    ctx.check(ok, "Search::new:limits-as-given", "Search::new keeps the limits it is given (default only when there are none)", nb.where(0),
+              bad_what="Search::new initialises limits with `%s`" % (expr_str(lim)[:80] if lim else None))
+
+
 TREE = (C.ALPHA_BETA_START, C.ALPHA_BETA, C.QUIESCENCE, "search::Search::get_pv", "search::Search::store_killers", "search::Search::log_uci_info")
 
 
@@ -315,7 +439,7 @@ def rule_depth_units(ctx):
     c14.rule_depth_units(ctx)
 
 
-RULES = [("one-site", rule_one_site), ("spine-panics", rule_spine_panics), ("tree-index", rule_tree_index), ("poll", rule_poll), ("time-budget", rule_time_budget), ("nonblocking", rule_nonblocking),
+RULES = [("one-site", rule_one_site), ("spine-panics", rule_spine_panics), ("tree-index", rule_tree_index), ("go-keywords", rule_go_keywords), ("poll", rule_poll), ("time-budget", rule_time_budget), ("nonblocking", rule_nonblocking),
          ("depth-units", rule_depth_units), ("legal-src", rule_legal_src)]
 # "legal" in "exactly one legal bestmove" rests on the legality filter
 RULES += engine.premise_rules("c01", ["filter", "probe"])
